@@ -16,7 +16,7 @@ RV = [F(0), F(1, 4), F(1, 2), F(1)]
 OLD_MEANS = [[F(0), F(3)], [F(-2), F(1)], [F(1), F(1)]]
 OLD_VARS = [[F(1), F(4)]]
 OLD_W = [[F(1, 4), F(3, 4)]]
-RELS = [(True, F(4)), (True, F(1, 2)), (True, F(1000)), (False, F(1, 2)), (False, F(0)), (False, F(1))]
+RELS = [(True, F(4)), (True, F(1, 2)), (True, F(20)), (False, F(1, 2)), (False, F(0)), (False, F(1))]
 VFL = [F(1, 1000), F(1, 2)]
 
 
